@@ -33,6 +33,7 @@ const LETTERS: &[&str] = &[
 struct Instance {
     node: Node,
     http: HttpServer,
+    ws: crate::ws::WsServer,
 }
 
 fn reset(node: &Node) {
@@ -285,6 +286,87 @@ fn run_bodies(inst: &Instance, bodies: &[Vec<usize>], variants: &[usize], out: &
     c.1.extend(kinds);
 }
 
+/// One WebSocket frame holding several commands.  Differential oracle: the frames the server sends
+/// back, the database afterwards and the session's clean-up must be exactly what the same commands
+/// give when each travels in a frame of its own (and the data must be what the model says).
+fn run_ws_frames(inst: &Instance, bodies: &[Vec<usize>], out: &std::sync::Mutex<Vec<Violation>>, counters: &std::sync::Mutex<(u64, std::collections::BTreeSet<String>)>) {
+    let mut n = 0u64;
+    let state = |inst: &Instance| -> String {
+        with_db(&inst.node.dbs, "t", |db| {
+            let d = dump_db(db);
+            let mut v: Vec<String> = d.iter().map(|(k, x)| format!("{}={:?}@{}:{:?}", k, x.value, x.version, x.state)).collect();
+            v.sort();
+            v.join(",")
+        })
+        .unwrap_or_default()
+            + &format!(" dbs={:?}", {
+                let mut n: Vec<String> = inst.node.dbs.map.read().unwrap().keys().cloned().collect();
+                n.sort();
+                n
+            })
+    };
+    for b in bodies {
+        let cmds: Vec<&str> = b.iter().map(|i| LETTERS[*i]).collect();
+        let (_, model) = expected(&cmds);
+        let mut results: Vec<(Vec<String>, String, String)> = vec![];
+        let mut failed = false;
+        for one_frame in [false, true] {
+            reset(&inst.node);
+            n += 1;
+            let mut c = match inst.ws.connect() {
+                Ok(c) => c,
+                Err(e) => {
+                    out.lock().unwrap().push(Violation { clause: "websocket-request-failed".into(), shape: cmds.join(" ; "), detail: e, replay: json!({"engine":"c20","transport":"websocket","commands":cmds}) });
+                    failed = true;
+                    break;
+                }
+            };
+            let to_send: Vec<String> = if one_frame { vec![cmds.join(";")] } else { cmds.iter().map(|x| x.to_string()).collect() };
+            let frames = match c.frames_until_marker(&to_send) {
+                Some(f) => f,
+                None => {
+                    out.lock().unwrap().push(Violation { clause: "websocket-request-failed".into(), shape: cmds.join(" ; "), detail: format!("the connection ended while {:?} was being answered", to_send), replay: json!({"engine":"c20","transport":"websocket","commands":cmds}) });
+                    failed = true;
+                    break;
+                }
+            };
+            let open_state = state(inst);
+            let closed = c.close_and_wait();
+            let (watchers, conn, key) = with_db(&inst.node.dbs, "t", |db| (watcher_counts(db), db.connections_count(), dump_db(db).get("$connections").map(|k| k.value.clone()))).unwrap();
+            let after = format!("closed={} watchers_left={} counter={} $connections={:?}", closed, watchers.values().filter(|n| **n > 0).count(), conn, key.as_ref().and_then(|k| k.parse::<i64>().ok()).unwrap_or(0));
+            results.push((frames, open_state, after));
+        }
+        if failed {
+            continue;
+        }
+        let (sep, one) = (&results[0], &results[1]);
+        if sep.0 != one.0 {
+            let pos = (0..sep.0.len().max(one.0.len())).find(|i| sep.0.get(*i) != one.0.get(*i)).unwrap_or(0);
+            out.lock().unwrap().push(Violation {
+                clause: if sep.0.len() != one.0.len() { "websocket-entry-count-mismatch" } else { "websocket-entry-mismatch" }.into(),
+                shape: format!("{} first wrong frame #{}", cmds.join(" ; "), pos),
+                detail: format!("one frame {:?} answered with {:?}; the same commands in separate frames with {:?}", cmds.join(";"), one.0, sep.0),
+                replay: json!({"engine":"c20","transport":"websocket","commands":cmds}),
+            });
+        }
+        if sep.1 != one.1 {
+            out.lock().unwrap().push(Violation { clause: "commands-not-executed-once-in-order".into(), shape: format!("websocket: {}", cmds.join(" ; ")), detail: format!("database after one frame: {} ; after separate frames: {}", one.1, sep.1), replay: json!({"engine":"c20","transport":"websocket","commands":cmds}) });
+        }
+        // and against the model (values of live keys)
+        let live: BTreeMap<String, String> = one.1.split(" dbs=").next().unwrap_or("").split(',').filter(|e| !e.is_empty() && !e.ends_with(":Deleted") && !e.starts_with("$connections=")).filter_map(|e| e.split_once('=').map(|(k, r)| (k.to_string(), r.rsplit_once('@').map(|x| x.0).unwrap_or(r).to_string()))).collect();
+        let mlive: BTreeMap<String, String> = model.kv.iter().filter(|(k, _)| *k != "$connections").map(|(k, v)| (k.clone(), format!("{:?}", v.0))).collect();
+        if live != mlive {
+            out.lock().unwrap().push(Violation { clause: "commands-not-executed-once-in-order".into(), shape: format!("websocket: {}", cmds.join(" ; ")), detail: format!("database after the frame {:?}: {:?}, expected {:?}", cmds.join(";"), live, mlive), replay: json!({"engine":"c20","transport":"websocket","commands":cmds}) });
+        }
+        for (which, r) in [("separate frames", sep), ("one frame", one)] {
+            if !r.2.starts_with("closed=true watchers_left=0 counter=0 $connections=0") {
+                out.lock().unwrap().push(Violation { clause: if r.2.contains("watchers_left=0") { "connection-count-leaked" } else { "subscription-leaked" }.into(), shape: format!("websocket: {}", cmds.join(" ; ")), detail: format!("after the WebSocket connection ({}) closed: {}", which, r.2), replay: json!({"engine":"c20","transport":"websocket","commands":cmds}) });
+            }
+        }
+    }
+    counters.lock().unwrap().0 += n;
+}
+
 pub fn run(run: &mut Run) {
     let quick = run.quick();
     let depth = if quick { 4 } else { 5 };
@@ -312,7 +394,8 @@ pub fn run(run: &mut Run) {
             admin.exec(&node, &format!("auth {} {}", USER, PWD));
             admin.exec(&node, "create-db t tok none");
             let http = HttpServer::start(node.dbs.clone());
-            Instance { node, http }
+            let ws = crate::ws::WsServer::start(node.dbs.clone());
+            Instance { node, http, ws }
         })
         .collect();
     let out = std::sync::Mutex::new(vec![]);
@@ -328,6 +411,9 @@ pub fn run(run: &mut Run) {
                 let short: Vec<Vec<usize>> = part.iter().filter(|b| b.len() <= 2).cloned().collect();
                 run_bodies(inst, part, &[0], out, counters);
                 run_bodies(inst, &short, &[1, 2, 3], out, counters);
+                let ws_depth = depth - 1;
+                let ws_part: Vec<Vec<usize>> = part.iter().filter(|b| b.len() <= ws_depth).cloned().collect();
+                run_ws_frames(inst, &ws_part, out, counters);
             });
         }
     });
@@ -335,7 +421,8 @@ pub fn run(run: &mut Run) {
         run.violate(v);
     }
     let (n, kinds) = counters.into_inner().unwrap();
-    run.cov("http_requests", json!(n));
+    run.cov("http_and_websocket_requests", json!(n));
+    run.cov("max_commands_per_websocket_frame", json!(depth - 1));
     run.cov("bodies", json!(bodies.len()));
     run.cov("max_commands_per_body", json!(depth));
     run.cov("letters", json!(LETTERS));
@@ -349,6 +436,7 @@ pub fn run(run: &mut Run) {
         i.node.remove_dir();
     }
     run.assume("the server's state is reset by the harness between bodies (keys, watchers, counters, extra databases), so every body starts from the same database");
-    run.assume("values contain no ';' or newline; the WebSocket frame path is not part of this tier");
+    run.assume("values contain no ';' or newline");
+    run.assume("WebSocket frames: the oracle is differential - one frame with n commands against the same n commands in n frames on a fresh connection (frames received, database with versions, clean-up after close) - plus the model for the stored values");
     let _ = Arc::new(0);
 }
